@@ -53,6 +53,10 @@ func (c StackCfg) Key() string {
 	return k
 }
 
+// DeadlineZeroTime as StackCfg.Deadline: the deadline limiter is given the zero time.Time (year 1), a deadline long
+// past like any other negative offset.
+const DeadlineZeroTime = time.Duration(-1 << 62)
+
 // Stack is a built limiter stack plus the observation points the oracles use.
 type Stack struct {
 	Cfg        StackCfg
@@ -235,6 +239,9 @@ func BuildStack(c StackCfg) (*Stack, error) {
 		st.Default, err = mkDefault()
 		if err == nil {
 			st.DeadlineAt = time.Now().Add(c.Deadline)
+			if c.Deadline == DeadlineZeroTime {
+				st.DeadlineAt = time.Time{} // the zero time.Time: a deadline long past
+			}
 			st.Lim = limiter.NewDeadlineLimiter(st.Default, st.DeadlineAt, c.logger())
 		}
 	case "queue":
